@@ -88,17 +88,23 @@ Proof.
   assert (B1 : D * B ^ (e0 - 1 + j') < a * B ^ j').
   { assert (E : B ^ ld * B ^ (e0 - 1 + j') = B ^ (la - 1) * B ^ j').
     { rewrite <- !Z.pow_add_r by lia. f_equal. unfold e0. lia. }
-    pose proof (pw (e0 - 1 + j') He0). nia. }
+    pose proof (pw (e0 - 1 + j') He0) as PX.
+    assert (D * B ^ (e0 - 1 + j') < B ^ ld * B ^ (e0 - 1 + j')) by (apply Z.mul_lt_mono_pos_r; lia).
+    assert (B ^ (la - 1) * B ^ j' <= a * B ^ j') by (apply Z.mul_le_mono_nonneg_r; lia). lia. }
   assert (B2 : a * B ^ j' < D * B ^ (e0 + 1 + j')).
   { assert (E : B ^ (ld - 1) * B ^ (e0 + 1 + j') = B ^ la * B ^ j').
     { rewrite <- !Z.pow_add_r by lia. f_equal. unfold e0. lia. }
-    pose proof (pw (e0 + 1 + j') ltac:(lia)). nia. }
+    pose proof (pw (e0 + 1 + j') ltac:(lia)) as PX.
+    assert (a * B ^ j' < B ^ la * B ^ j') by (apply Z.mul_lt_mono_pos_r; lia).
+    assert (B ^ (ld - 1) * B ^ (e0 + 1 + j') <= D * B ^ (e0 + 1 + j')) by (apply Z.mul_le_mono_nonneg_r; lia). lia. }
   assert (Hlow : e0 - 1 <= e).
   { destruct (Z.le_gt_cases (e0 - 1) e) as [|G]; [assumption|exfalso].
-    assert (B ^ (e + 1 + j') <= B ^ (e0 - 1 + j')) by (apply Z.pow_le_mono_r; lia). nia. }
+    assert (Hpw : B ^ (e + 1 + j') <= B ^ (e0 - 1 + j')) by (apply Z.pow_le_mono_r; lia).
+    assert (D * B ^ (e + 1 + j') <= D * B ^ (e0 - 1 + j')) by (apply Z.mul_le_mono_nonneg_l; lia). lia. }
   assert (Hhigh : e <= e0).
   { destruct (Z.le_gt_cases e e0) as [|G]; [assumption|exfalso].
-    assert (B ^ (e0 + 1 + j') <= B ^ (e + j')) by (apply Z.pow_le_mono_r; lia). nia. }
+    assert (Hpw : B ^ (e0 + 1 + j') <= B ^ (e + j')) by (apply Z.pow_le_mono_r; lia).
+    assert (D * B ^ (e0 + 1 + j') <= D * B ^ (e + j')) by (apply Z.mul_le_mono_nonneg_l; lia). lia. }
   rewrite rat_exp_geB. fold a la ld e0.
   rewrite (geB_scaled a D e0 j') by lia.
   destruct (Z.leb_spec (D * B ^ (e0 + j')) (a * B ^ j')) as [G|G].
@@ -163,7 +169,8 @@ Proof.
     assert (E2 : B ^ (p + dd) <= B ^ (nd + shift)) by (apply Z.pow_le_mono_r; lia).
     assert (E3 : B ^ (p + dd) = B ^ (p - 1) * B ^ (dd + 1)) by (rewrite <- Z.pow_add_r by lia; f_equal; lia).
     replace (dd + 1) with (dlen B D) in E3 by (unfold dd; lia).
-    pose proof (pw (p - 1) ltac:(lia)). nia. }
+    pose proof (pw (p - 1) ltac:(lia)).
+    assert (D * B ^ (p - 1) <= B ^ dlen B D * B ^ (p - 1)) by (apply Z.mul_le_mono_nonneg_r; lia). lia. }
   assert (Hn'sgn : Z.sgn n' = Z.sgn N).
   { unfold n'. rewrite Z.sgn_mul, (Z.sgn_pos (B ^ shift)) by lia. ring. }
   assert (Hsg : Z.sgn N = 1 \/ Z.sgn N = -1) by (destruct (Z.sgn_spec N) as [[? E]|[[? E]|[? E]]]; lia).
@@ -200,12 +207,17 @@ Proof.
   { rewrite Eh, El, Er, Hn'val. rewrite Edm, Edm2. ring. }
   split.
   { rewrite El, Er. replace (Z.sgn N * al * D + Z.sgn N * ar) with (Z.sgn N * (al * D + ar)) by ring.
-    rewrite Z.abs_mul. assert (0 <= al * D + ar) by nia.
-    rewrite (Z.abs_eq (al * D + ar)) by lia. destruct Hsg as [-> | ->]; cbn [Z.abs]; nia. }
+    rewrite Z.abs_mul. assert (0 <= al * D) by (apply Z.mul_nonneg_nonneg; lia).
+    rewrite (Z.abs_eq (al * D + ar)) by lia.
+    assert (al * D <= (B ^ extra - 1) * D) by (apply Z.mul_le_mono_nonneg_r; lia).
+    assert (al * D + ar < D * B ^ extra) by lia.
+    destruct Hsg as [-> | ->]; cbn [Z.abs]; lia. }
   split.
-  { intros HNp. rewrite El, Er, (Z.sgn_pos N) by lia. nia. }
+  { intros HNp. rewrite El, Er, (Z.sgn_pos N) by lia.
+    assert (0 <= al * D) by (apply Z.mul_nonneg_nonneg; lia). lia. }
   split.
-  { intros HNn. rewrite El, Er, (Z.sgn_neg N) by lia. nia. }
+  { intros HNn. rewrite El, Er, (Z.sgn_neg N) by lia.
+    assert (0 <= al * D) by (apply Z.mul_nonneg_nonneg; lia). lia. }
   split.
   { rewrite Eh, Z.abs_mul. assert (0 <= ah) by (pose proof (pw (p - 1) ltac:(lia)); lia).
     rewrite (Z.abs_eq ah) by lia. destruct Hsg as [-> | ->]; cbn [Z.abs]; lia. }
@@ -213,8 +225,10 @@ Proof.
   apply (rat_exp_unique N D (p - 1 + extra - shift) shift HN HD Hsh); [lia|].
   replace (p - 1 + extra - shift + shift) with (dlen B q - 1) by (unfold extra; lia).
   replace (p - 1 + extra - shift + 1 + shift) with (dlen B q) by (unfold extra; lia).
-  rewrite <- Hn'abs. rewrite Edm. split; [nia|].
-  assert (aq + 1 <= B ^ dlen B q) by lia. nia.
+  rewrite <- Hn'abs. rewrite Edm.
+  assert (D * B ^ (dlen B q - 1) <= D * aq) by (apply Z.mul_le_mono_nonneg_l; lia).
+  assert (D * (aq + 1) <= D * B ^ dlen B q) by (apply Z.mul_le_mono_nonneg_l; lia).
+  split; lia.
 Qed.
 
 Theorem rat_to_fbig_correct p m N D : 1 <= p -> 0 < D ->
